@@ -90,7 +90,7 @@ structure M where
   fault : Nat := 0               -- H2 countdown; 0 = disarmed
   shape : Option String := none  -- control stack shape at the injected fault
   out : List Ev := []            -- newest first
-  maxDepth : Nat := 1000         -- __MAX_CALL_DEPTH__
+  maxDepth : Nat := 50           -- __MAX_CALL_DEPTH__ (rc.cpp default; `maxdepth <n>` lowers it per case)
   staleCatch : Bool := false     -- what a read of the (stale) frame above csp yields for "is it FRAME_CATCH"
   deriving Repr, Inhabited
 
@@ -297,6 +297,8 @@ inductive Op
   | withCg (v : Val) (body : Prog)              -- C code that saves command_giver, sets it, restores it on normal exit
   | install (site : InstallSite) (fails : Bool)
   | call (k : CallKind) (nargs declared : Nat) (body : Prog)
+  | cb (k : CallKind) (nargs declared : Nat) (body : Prog)   -- a callback made by an efun (map/filter/sort/…): the same
+                                                             -- frames as `call`, but no LPC instruction dispatches it
   | catch_ (body : Prog)
   | sayCatch
   | safeApply (nargs declared : Nat) (body : Prog)
@@ -413,8 +415,11 @@ def catchFinish (econ : Ctx) (link : List Ctx) (r : Res) : Res :=
       -- sp++; *sp = catch_value; catch_value = const1
       let m7 := { pushVals 1 m6 with lastCatch := m6.catchValue, catchValue := .num 1 }
       if m7.errState &&& limitBits != 0 then
-        -- pop_context; error("*Can't catch ...")
-        raise "*Can't catch eval cost too big error." (popContext link m7)
+        -- pop_context (clears the error state); the bit is set again for the enclosing catch frames; error("*Can't catch ...")
+        if m7.errState &&& Gen.C05.esMaxEvalCost != 0 then
+          raise "*Can't catch eval cost too big error." { popContext link m7 with errState := Gen.C05.esMaxEvalCost }
+        else
+          raise "*Can't catch too deep recursion error." { popContext link m7 with errState := Gen.C05.esStackFull }
       else afterCatch link m7
     | r => r
   | r => r
@@ -493,6 +498,7 @@ def exec : Prog → M → Res
 
 /-- every op begins with one dispatched instruction (`tick`), which can be the injected fault -/
 def execOp : Op → M → Res
+  | .cb k a d body, m0 => execCore (.cb k a d body) m0
   | o, m0 => if (tick m0).1 then raise injectedMsg (tick m0).2 else execCore o (tick m0).2
 
 def execCore : Op → M → Res
@@ -507,6 +513,15 @@ def execCore : Op → M → Res
       else raise site.failMsg m
     else .ok { m with installed := site.name :: m.installed }
   | .call k nargs declared body, m =>
+    match depthCheck k (pushVals nargs m) with
+    | some mFull =>
+      raise "***Too deep recursion." { mFull with errState := mFull.errState ||| Gen.C05.esStackFull }
+    | none =>
+    match adjustArgs nargs declared (enterCall k declared (pushVals nargs m)) with
+    | none => .crash "value stack underflow" (pushVals nargs m)
+    | some m2 =>
+      callFinish k declared (if hasReturnTick k then thenTick (exec body m2) else exec body m2)
+  | .cb k nargs declared body, m =>
     match depthCheck k (pushVals nargs m) with
     | some mFull =>
       raise "***Too deep recursion." { mFull with errState := mFull.errState ||| Gen.C05.esStackFull }
